@@ -11,7 +11,7 @@ LEVEL = 'exploration'
 RULE = ('all 366 (month, day) x layouts {Month d, m/d, d Month} and the 7 weekday names x references that put the stated day before, ON and '
         'after the reference day, at midnight and not, plus boundary and seeded references 1950..2090 (quick tier: every month-day once '
         'with 3 references; thorough: every month-day with 12 references). non-trivial = one entity with two values; distinct = distinct '
-        '(query, reference).')
+        '(query, reference). 29 February is additionally asked against every reference year 1950..2090.')
 EXHAUSTIVE = False
 JOB_TIMEOUT = 1500
 DIM = [31, 29, 31, 30, 31, 30, 31, 31, 30, 31, 30, 31]
@@ -114,6 +114,17 @@ def gen(ctx):
                 name, q = r.choice(forms) if ctx.tier == 'quick' else (None, None)
                 for name, q in ([(name, q)] if name else forms):
                     yield q, R, [p.isoformat(), f.isoformat()], 'XXXX-%02d-%02d' % (mo, d), 'monthday|' + name, rel.split('-')[0] if not rel.startswith('on') else 'on' if 'non' in rel else 'on0'
+    # 29 February against EVERY reference year (century rules: 2000 is a leap year, 1900 and 2100 are not)
+    for y in range(1950, 2091):
+        days = [dt.date(y, r.randrange(3, 13), r.randrange(1, 29)), dt.date(y, 2, 28), dt.date(y, 3, 1), dt.date(y, 1, r.randrange(1, 29))]
+        if y % 4 == 0 and (y % 100 != 0 or y % 400 == 0):
+            days.append(dt.date(y, 2, 29))
+        for D in (days if ctx.tier == 'thorough' else days[:1] + [r.choice(days[1:])]):
+            R = dt.datetime.combine(D, r.choice([dt.time(0, 0), dt.time(r.randrange(24), r.randrange(60))]))
+            p, f = occ(2, 29, D)
+            name, q = r.choice([('Month d', 'February 29'), ('m/d', '2/29'), ('d Month', '29 February')])
+            rel = 'on' if (D.month, D.day) == (2, 29) and R.time() != dt.time(0, 0) else 'on0' if (D.month, D.day) == (2, 29) else 'other'
+            yield q, R, [p.isoformat(), f.isoformat()], 'XXXX-02-29', 'monthday|' + name, rel
     refs = dtlib.refs(r, 20 if ctx.tier == 'quick' else 600)
     for R in refs:
         D = R.date()
